@@ -98,6 +98,7 @@ func genQCfg(rc *RunCtx) QCfg {
 		c.MaxBodySize = 1 << 20
 		c.MaxRdy = int64(r.Pick(100, 2500))
 		c.ClockSteps = true
+		c.IDClockDrift = r.Pick(0, 3, 16, 200)
 	case "C08":
 	}
 	return c
@@ -407,12 +408,22 @@ func queueWorld(rc *RunCtx) {
 		rc.Defer(func() { simos.Install(nil) })
 	}
 	simclock.SetOffset(0)
-	rc.Defer(func() { simclock.SetOffset(0) })
+	simclock.SetDrift(0, 0)
+	drift0 := simclock.Drifted
+	rc.Defer(func() {
+		simclock.SetOffset(0)
+		simclock.SetDrift(0, 0)
+		rc.faults["id_clock_drift_ticks"] += int64(simclock.Drifted - drift0)
+	})
 
 	for i, op := range ops {
 		rc.step = i + 1
 		rc.Reseed(op.Uid)
 		netRng = NewPRNG(rc.Seed*131 + uint64(op.Uid))
+		if c.IDClockDrift > 0 {
+			// the id generator's clock moves on between two readings, as it does when publishers really run in parallel
+			simclock.SetDrift(mix64(rc.Seed*977+uint64(op.Uid)), uint64(c.IDClockDrift))
+		}
 		rc.opsKind[op.Kind]++
 		if !w.inBurst {
 			w.beginStep()
